@@ -15,7 +15,10 @@ Model of `pyyeti.nastran.n2p.formrbe3` (property C14), including the `UM_List` v
                             (`solve(rbe3_um, [I, -rbe3_n])`) and for a mixed m-set (`A B C D` blocks);
 * `umPlan`                  the DOF bookkeeping (`mat_intersect`, `index2bool`, `flippv`, the two
                             emptiness tests `dpv_m.size == 0`, `ipv_m.size == 0`) as exact `Nat`-list code;
-* `formRbe3`                everything together on lists (what `Drivers/C14.lean` runs at `Float`).
+* `sortByRow`, `sortRows`   "Sort idof / mdof according to uset" (`mat_intersect(…, usetdof, 2)`);
+* `rbe3Core`                everything after the list packaging, for independent DOF already in uset order;
+* `formRbe3`                `sortByRow` + `rbe3Core` on lists (the `rbe3` request of `Drivers/C14.lean`); the packaging
+                            of `formrbe3`'s own arguments (`Ind_List`, `UM_List`, uset rows) is `Model/CoordRbe3Wrap.lean`.
 
 `solve` is the external kernel `scipy.linalg.solve`: a parameter.  The theorems quantify over every
 exact solver; the `Float` run uses `gaussMx` (Gaussian elimination with partial pivoting).
